@@ -742,7 +742,7 @@ impl<S: BitmapSlice + Send + Sync> FileSystem for PassthroughFs<S> {
             Self::create_file_excl(&dir_file, name, flags, args.mode & !(args.umask & 0o777))?
         };
 
-        let entry = self.do_lookup(parent, name)?;
+        let mut entry = self.do_lookup(parent, name)?;
         let file = match new_file {
             // File didn't exist, now created by create_file_excl()
             Some(f) => f,
@@ -759,7 +759,12 @@ impl<S: BitmapSlice + Send + Sync> FileSystem for PassthroughFs<S> {
                 };
 
                 let (_uid, _gid) = set_creds(ctx.uid, ctx.gid)?;
-                self.open_inode(entry.inode, args.flags as i32)?
+                let file = self.open_inode(entry.inode, args.flags as i32)?;
+                if args.flags & (libc::O_TRUNC as u32) != 0 {
+                    // The attributes were fetched before the open truncated the file.
+                    entry.attr = stat_fd(&file, None)?;
+                }
+                file
             }
         };
 
